@@ -56,7 +56,10 @@ TraceNext ==
                /\ Chk(policy' = policy /\ World' = World, "I", e, "Edit")
           [] e.a = "BreakFile" ->
                /\ Chk(P_Edit, "P", e, "C15_EditNotLoaded")
-               /\ Chk(DoBreakFile, "I", e, "BreakFile")
+               /\ Chk(DoBreakFile(policyFile'), "I", e, "BreakFile")
+          [] e.a = "Cancel" ->
+               /\ Chk(policy' = policy /\ policyFile' = policyFile, "P", e, "C15_PolicyStable")
+               /\ Chk(DoCancel(CallOf(e), e.args.held), "I", e, "Cancel")
           [] e.a = "Reload" ->
                /\ Chk(P_Reload, "P", e, "C15_ReloadEffective")
                /\ Chk(DoReload, "I", e, "Reload")
